@@ -132,6 +132,9 @@ class C10(Prop):
                    "struct parameters (ESL_HYPEREXP, ESL_MIXGEV) are Lean structures with the members the translated functions use; arrays are "
                    "lists read with getD (default 0.0) and written with List.set: theorems carry K <= length where a store matters; the scratch "
                    "vector wrk is local to one call (its contents are not carried across calls)",
+                   "`if (esl_stats_IncompleteGamma(...) != eslOK) return eslNaN;` (and the same for esl_stats_LogGamma) translates to the same term as the "
+                   "unchecked call: Num.incGammaP/Q, Num.logGamma denote the junk value (NaN at Float, an opaque real over R) exactly where the C function fails, "
+                   "and every use of the result propagates it; the sites folded are listed under status_checked_special_calls",
                    "samplers: the one primitive draw (esl_rnd_UniformPositive / esl_rnd_Gamma / esl_rnd_Gaussian) becomes the parameter u, the arguments handed "
                    "to it are translated too (<fn>_draw) and compared with the C call (ld --wrap interception); esl_rnd_DChoose's result becomes the parameter k; "
                    "esl_gam_Sample's redraw loop is translated with the generator as the stream u : Nat -> a of Gamma variates (iteration i reads u i; fuel = number of variates supplied)",
@@ -677,6 +680,28 @@ class C10(Prop):
         ops = case["ops"]
         if case.get("tie_only"):
             self.__dict__.setdefault("tie_only_ops", [0])[0] += len(ops)
+            # the closed ends of the p range of the closed-form inverses ARE judged: invcdf(0) / invsurv(1) is the lower end of the
+            # support (-inf, mu, or the GEV bound mu - 1/(alpha lambda) for alpha > 0), invcdf(1) / invsurv(0) the upper end
+            for op, line in zip(ops, out):
+                kind, kv, a = parse_op(op)
+                if kind != "f" or "_inv" not in kv.get("fn", "") or len(a) < 3 or a[0] not in (0.0, 1.0):
+                    continue
+                fam, which = R.split_fn(kv["fn"])
+                if fam not in ("exp", "gumbel", "gev", "wei"):
+                    continue
+                res = parse_out(line)
+                if res is None:
+                    return Failure("monitor", "operation %r answered %r" % (op, line))
+                lower = (a[0] == 0.0) == (which == "invcdf")
+                if fam in ("exp", "wei"):
+                    want = a[1] if lower else math.inf
+                elif fam == "gumbel" or abs(a[3]) < 1e-12:
+                    want = -math.inf if lower else math.inf
+                else:
+                    bound = a[1] - 1.0 / (a[3] * a[2])
+                    want = (bound if a[3] > 0 else -math.inf) if lower else (math.inf if a[3] > 0 else bound)
+                if not (res[0] == want or (math.isfinite(want) and abs(res[0] - want) <= 4 * 2.0 ** -52 * max(abs(want), abs(a[1])))):
+                    return Failure("monitor", "%s(p = %r; %r) = %r, the %s end of the support is %r" % (kv["fn"], a[0], a[1:], res[0], "lower" if lower else "upper", want))
             return None
         if "expect" in case and len(case["expect"]) == len(ops):       # (a shrunk case no longer lines up: skip)
             for op, want, line in zip(ops, case["expect"], out):
@@ -984,6 +1009,7 @@ class C10(Prop):
                                             "esl_rnd_DChoose (Mix.dchoose; the samplers esl_hxp_Sample / esl_mixgev_Sample themselves are translated)",
                                             "(esl_gam_Sample is TRANSLATED since round 6; Mix.gamSample remains as its specification, gam_sample_generated)"],
                 "primitive_variate_of_translated_samplers": getattr(self, "tinfo", {}).get("rng_prim", {}),
+                "status_checked_special_calls": getattr(self, "tinfo", {}).get("status_checked_special_calls", {}),
                 "not_covered": ["esl_rnd_Gamma / esl_rnd_Gaussian themselves (C09/C11 territory): the samplers built on them are translated as functions "
                                 "of the variate and run against the C code on forced variates (ld --wrap); on the real generator a Kolmogorov-Smirnov monitor",
                                 "esl_*_Plot (output formatting), esl_hyperexp_* / esl_mixgev_* constructors and I/O, esl_*_Fit* (C11)",
